@@ -176,7 +176,8 @@ func runC06(c *core.Ctx) *core.Violation {
 	}
 	cs.f.FilterLua = t.Choose(3) == 2
 	// the keyspace: keys that are prefixes / extensions of the listed prefixes, hash tags, checkpoint keys, the key "lua"
-	names := []string{"user:1", "user:", "user", "use", "us", "u", "order:9", "orders", "{tag}x", "{tag", "x{tag}", "redis-shake-checkpoint", "redis-shake-checkpoint-abcd", "redis-shake", "lua", "luax", "a", "b", "", "A", "user:\x00\xff"}
+	names := []string{"user:1", "user:", "user", "use", "us", "u", "order:9", "orders", "{tag}x", "{tag", "x{tag}", "redis-shake-checkpoint", "redis-shake-checkpoint-abcd", "redis-shake", "lua", "luax", "a", "b", "", "A", "user:\x00\xff",
+		"a}b{c}", "}{x}", "x}{}{y}", "{}{z}", "{{p}}", "q{r", "s}t"}
 	seen := map[string]bool{}
 	n := 3 + t.Choose(12)
 	for i := 0; i < n; i++ {
